@@ -118,16 +118,19 @@ func (rt *runtime) putValue(reference referencer, value Value) {
 
 // interruptPanic carries the value a function sent on Otto.Interrupt panicked with.
 // It is not a JavaScript exception: try statements let it pass, and the API
-// boundary (catchPanic) panics again with the original value.
+// boundary (catchPanic) panics again with the original value - the outermost one:
+// an API call made by a host function while a script is running passes it on as it is,
+// so that the script that called the host function cannot catch it either.
 type interruptPanic struct {
-	value interface{}
+	value   interface{}
+	runtime *runtime
 }
 
 // callInterrupt runs a function received on Otto.Interrupt on the interpreter's goroutine.
 func (rt *runtime) callInterrupt(fn func()) {
 	defer func() {
 		if caught := recover(); caught != nil {
-			panic(interruptPanic{caught})
+			panic(interruptPanic{value: caught, runtime: rt})
 		}
 	}()
 	fn()
